@@ -2,8 +2,8 @@ package pcore
 
 import (
 	"fmt"
-	"sort"
 	"reflect"
+	"sort"
 	"testing"
 
 	"github.com/vimeo/dials"
